@@ -25,7 +25,8 @@ CLAIMS = {
                 'option is overwritten, accumulators are reset; every np.empty buffer is covered before use; no fit '
                 'consumes the global RNG; get_instance returns fresh objects and every configurable __init__ records '
                 'its arguments; no query method memoises a value derived from fitted state that fit does not reset '
-                '(lru_cache / cached_property on such a method, lazily filled attributes). Three genuine defects are '
+                '(lru_cache / cached_property on such a method, lazily filled attributes); every check_fit raises NotFittedError '
+                'exactly in the state __init__ leaves; no module-level model instance is fitted by library code. Three genuine defects are '
                 'recorded as known findings (F7, F10a, F10b). Numeric equality of refitted models is not computed.',
         'note': NOTE,
         'technique': 'must-dataflow on per-function CFGs, attribute effect summaries (read/write closures per concrete class), '
@@ -34,7 +35,8 @@ CLAIMS = {
     'C20': {
         'text': 'Decides parameter immutability for every parameter of all public callables by a flow-sensitive may-alias '
                 'analysis (parameter object and its direct views, copies kill aliases, callee mutation and return-alias '
-                'summaries to a fixpoint, self.attr <- parameter heap edges, cross-method escapes in the thorough tier) '
+                'summaries to a fixpoint, self.attr <- parameter heap edges, containers reached through an attribute of a parameter, '
+                'cross-method escapes in the thorough tier) '
                 'and the labelling structure of the four scatter/compare helpers (provenance of each frame, label, '
                 'single concatenation, axis columns). Nested containers inside a caller\'s dict/list and what plotly '
                 'renders are out of reach.',
@@ -47,7 +49,8 @@ CLAIMS['C14'] = {
     'text': 'Decides writer/reader agreement for all to_dict/from_dict pairs (Bivariate, GaussianMultivariate, VineCopula, '
             'Tree, Edge explicit key tables; Univariate/ScipyModel/GaussianKDE params pass-through): every written key is '
             'read, every read key written, key k written from self.A is restored into A, writer and reader transforms are '
-            'inverse, every attribute the query/serialisation closure reads is restored, every constructor option that '
+            'inverse, recorded sequences are restored in recorded order, every attribute the query/serialisation closure reads '
+            'is restored (the fitted flag included), every constructor option that '
             'shapes the rebuilt model is serialised, the recorded type is the class to rebuild and enum factories are '
             'exhaustive, save/load use inverse formats, serialisation edits neither the model nor the caller\'s dict, no '
             'unpicklable callable is stored. Two genuine defects are recorded (F3a, F3b: KDE bw_method/weights not '
@@ -69,7 +72,8 @@ CLAIMS['C01'] = {
 }
 CLAIMS['C02'] = {
     'text': 'PARTIAL: decides, path by path, that the returned matrix is corr() of the normal scores followed by NaN->0, that the '
-            'ill-conditioned path (cond > 1/eps, direction and threshold checked) adds EPSILON*identity, that norm.ppf only '
+            'ill-conditioned path (direction checked, threshold folded numerically: at most 1e16) adds a positive ridge of order '
+            '1e-7 times the identity (size folded numerically), that norm.ppf only '
             'receives probabilities clipped strictly inside (0,1), that the matrix is labelled with the training columns in '
             'the order of its data (axis-order provenance) and that fit assigns columns/univariates before the correlation of '
             'the same table. Symmetry, range, PSD and equality with Pearson are semantics of pandas.corr and not decided.',
@@ -115,7 +119,8 @@ CLAIMS['C10'] = {
             'calibration (the rule that exposed the fixed defect F17). D7: the closed-form calibrations of Clayton and Gumbel are '
             'evaluated on a partition of tau in (0.001, 0.999) in the interval domain: the family\'s Kendall tau of the returned theta '
             '(theta/(theta+2), 1-1/theta, from the property text) must meet the tau cell (refutation only) and theta is proved '
-            'admissible. The Frank calibration (Debye function, numeric solver) is not decided.',
+            'admissible; for negative tau cells the result must leave the admissible set or the method must raise; no admissible '
+            'tau cell may end in a raise; returned constants are checked against invalid_thetas. The Frank calibration (Debye function, numeric solver) is not decided.',
     'note': NOTE,
     'technique': 'CFG dominance/post-dominance, guard normal forms, who-may-write, rank-kind abstract interpretation, '
                  'interval abstract interpretation',
@@ -170,7 +175,8 @@ CLAIMS['C08'] = {
 }
 CLAIMS['C09'] = {
     'text': 'PARTIAL: two separate U(0,1) draws of length n_samples, u = percent_point(c, v) with the conditioning draw second, '
-            'result column_stack((u, v)) with that same v, n_samples rows, under @random_state. Uniform margins, Kendall tau and '
+            'result column_stack((u, v)) with that same v, n_samples rows, under @random_state; the first draw is unreachable with '
+            '|tau| > 1 (path conditions, raising helpers followed). Uniform margins, Kendall tau and '
             'the joint law of the sample are statistical and not decided.',
     'note': NOTE,
     'technique': 'space-kind and length-kind abstract interpretation, argument-wiring check',
@@ -205,7 +211,8 @@ CLAIMS['C18'] = {
             'bisect moves an end only to the midpoint under the matching sign mask with the same mask on both sides and returns the '
             'midpoint; chandrupatla clips every evaluated point into the bracket and its tracked points only receive bracket points; '
             'reductions over the lane axis occur only in assertions and loop-exit tests; the scalar and vector interpolation formulas '
-            'have the same AC normal form; bisect\'s default tolerance and exit test. Convergence and accuracy are numeric, not decided.',
+            'have the same AC normal form; bisect\'s default tolerance and exit test; every array that receives points by lane stores '
+            'is float whatever the caller passed. Convergence and accuracy are numeric, not decided.',
     'note': NOTE,
     'technique': 'mask-agreement and containment idioms, lane-reduction enumeration, AC normal form of sibling formulas',
 }
